@@ -787,10 +787,9 @@ fn run_regressions(id: &str, exe: &Path) -> (usize, Vec<(PathBuf, String)>) {
                     .unwrap_or("")
                     .trim()
                     .to_string();
-                if let Some(sig) = &expected_known {
-                    if detail.starts_with(&format!("signature={} ", sig)) {
-                        continue;
-                    }
+                // a failure whose signature is a listed known finding is tolerated
+                if known.iter().any(|sig| detail.starts_with(&format!("signature={} ", sig))) {
+                    continue;
                 }
                 failed.push((f.clone(), format!("exit {:?} {}", o.status.code(), detail)));
             }
@@ -828,6 +827,12 @@ pub fn audit_file_path() -> PathBuf {
 /// Process-wide initialisation shared by workers and replays.
 pub fn init_process() {
     install_quiet_panic_hook();
+    if let Ok(filter) = std::env::var("VERIF_TRACE") {
+        let _ = tracing_subscriber::fmt()
+            .with_env_filter(tracing_subscriber::EnvFilter::new(filter))
+            .with_writer(std::io::stderr)
+            .try_init();
+    }
     // production builds (debug assertions off) require an audit provider
     sos_backend::audit::init_providers(vec![sos_backend::audit::new_fs_provider(
         audit_file_path(),
